@@ -43,21 +43,21 @@ CHECKS = {
  "C13": ("E4 argument-domain explorer", "exhaustive enumeration of optional-key subsets x value forms x limits, missing-key and wrong-type menus on the real TOML loader; differential oracle against the constructor call",
          "Every subset of optional keys and every alternative TOML form is loaded and compared (params row + solved probe system) with the constructor call; every mandatory key is removed and every excluded type tried.",
          "TOML written by toml.dumps; LinReg outside the wrong-type menu as stated", "5"),
- "C20": ("E4 argument-domain explorer", "exhaustive grid of (w1,w2,l,t,rho,temp,tcr) on the real functions; exact-rational closed form and 12 relational laws per point",
+ "C20": ("E4 argument-domain explorer", "exhaustive grid of (w1,w2,l,t,rho,temp,tcr) on the real functions; exact-rational closed form, 12 relational laws, every subset of omitted optional arguments and a state-leak sentinel per point",
          "Full Cartesian product of the value menus; closed form in exact rational arithmetic on the same floats.",
          "lattice, not the reals", "5"),
  "C14": ("E2 edit-history explorer", "explicit-state breadth-first search over all edit histories (depth/deviation bounded) of the real System, replay-from-scratch, state hashing on K_full; invariant on every reached state",
-         "Every sequence of edit calls up to the bound from five seed states is executed on the real object; the well-formedness invariant is evaluated on each distinct state, after accepted and after rejected calls.",
+         "Every sequence of edit calls up to the bound from 14 seed states is executed on the real object; the well-formedness invariant is evaluated on each distinct state, after accepted and after rejected calls.",
          "5-letter component alphabet; K_full merges only states with identical futures (argument in DESIGN A.1)", "4"),
- "C15": ("E2 edit-history explorer", "explicit-state search over edit/configuration histories of the real System; for every rejected transition a full white-box snapshot and 7 public reports are compared before/after",
+ "C15": ("E2 edit-history explorer", "explicit-state search over edit/configuration histories of the real System; for every rejected transition a full white-box snapshot and 8 public reports are compared before/after; second pass with warnings promoted to errors on the last call",
          "All rejected calls met by the bounded search (every op kind, every rejection reason, malformed phase arguments) are checked for leaving the object bit-identical and every report unchanged.",
          "5-letter alphabet; depth/budget bound", "4"),
  "C16": ("E2 edit-history explorer", "explicit-state search over edit histories of the real System; per distinct state: reference edit model (mc/e2.py model_apply) conformance + differential of all reports against a fresh build of the same structure",
          "Each distinct state reached by accepted edits is compared with the reference edit semantics applied to the same history and, report by report, with a system built from scratch; the model is bound to the code by this conformance check on every state.",
          "reference edit semantics transcribe the documentation (sets of outcomes where it is silent); 5-letter alphabet", "4"),
- "C17": ("E2 edit-history explorer", "exhaustive enumeration of all ordered pairs (triples) of 12 analyses on representative systems with white-box snapshot comparison, plus fault enumeration on batt_life (exception at every k-th callback, solver fault) on the real code",
+ "C17": ("E2 edit-history explorer", "exhaustive enumeration of all ordered pairs (triples) of 15 analyses on representative systems with white-box snapshot comparison, plus fault enumeration on batt_life (exception at every k-th callback, solver fault) on the real code",
          "Every ordered pair of analyses is executed on every representative system; the snapshot and the argument objects must be unchanged and the last result must equal its result on a fresh build. Every position of a callback / solver fault in every answer sequence is executed.",
-         "7 representative systems; K_full covers what the methods read; DOT text instead of images", "4"),
+         "9 representative systems; K_full covers what the methods read; DOT text instead of images", "4"),
  "C18": ("E3 environment-answer explorer", "stateless exhaustive enumeration of all battery-callback answer sequences up to depth k x terminators x phase sets x battery placements on the real batt_life(); recorded callback arguments compared with solve() of a fresh equivalent system",
          "The callbacks are the environment: all answer sequences of the menu are executed and every argument the library passes in is predicted from a fresh system holding the battery's present state.",
          "deterministic scripted callbacks; one system shape per variant", "4"),
